@@ -382,7 +382,10 @@ class AsteriskToken(XPathToken):
             try:
                 if isinstance(op2, (YearMonthDuration, DayTimeDuration)):
                     return op2 * op1
-                return op1 * op2  # type:ignore[operator]
+                result = op1 * op2  # type:ignore[operator]
+                if isinstance(result, Decimal) and not result and result.is_signed():
+                    return result.copy_abs()  # xs:decimal has no negative zero
+                return result
             except TypeError as err:
                 if isinstance(context, XPathSchemaContext):
                     return []
